@@ -13,7 +13,8 @@ PROPERTY_FILE = 'Properties/C05.v'
 # generated model parts (translate/) this property's model / proofs really depend on
 GEN_DEPS = ['OpsImpl', 'QuantityImpl', 'RoundingImpl', 'AllocImpl']
 MODEL_TARGETS = Q.MODEL_TARGETS
-PROOF_TARGETS = ['Proofs/GenOpsEq.vo', 'Proofs/C05Proofs.vo', 'Proofs/C10MoneyProofs.vo']
+PROOF_TARGETS = ['Proofs/GenOpsEq.vo', 'Proofs/C05Proofs.vo', 'Proofs/C10MoneyProofs.vo',
+                 'Proofs/GenQuantumEq.vo']
 COQ_HEADER = Q.COQ_HEADER
 COQ_CHECK = Q.COQ_CHECK
 ISOLATE = True
